@@ -152,6 +152,7 @@ class Executor:
         self.back_states = None
         self.templates = []            # template invariants: functions poly -> poly (candidate facts t(v) >= 0)
         self._cand_cache = {}
+        self.unroll = None             # (loop id, [back-edge states]) while a loop of known length is being expanded
         self.keep_dead_entry_locals = False   # rules that read a local of the entry function at its return
         self.result_facts = None       # fn(trait, method, result symbol name) -> [poly >= 0] assumed about an abstract call's result
         self.weak_cands = {}           # ADT def -> candidate indices some loop's Houdini run has refuted (not re-tried at merges)
@@ -708,7 +709,7 @@ class Executor:
         if lo is not None and hi is not None and lo >= tlo and hi <= thi:
             return IntV(bits, signed, p=p)
         if facts is not None:
-            if facts.entails_ge0(p - tlo, 2, 2) and facts.entails_ge0(thi - p, 2, 2):
+            if facts.entails_ge0_split(p - tlo, 2, 2) and facts.entails_ge0_split(thi - p, 2, 2):
                 return IntV(bits, signed, p=p)
         # wrapping: go through bits when possible
         bv = self.poly_to_bits(p, bits, signed, facts) if (lo is not None and lo >= 0 and self.bits_cheap(p)) else None
@@ -838,7 +839,7 @@ class Executor:
             lo, hi = p.range(facts)
             tlo, thi = (-(1 << (bits - 1)), (1 << (bits - 1)) - 1) if signed else (0, (1 << bits) - 1)
             fits = lo is not None and hi is not None and lo >= tlo and hi <= thi
-            if not fits and facts.entails_ge0(p - tlo, 2, 2) and facts.entails_ge0(thi - p, 2, 2):
+            if not fits and facts.entails_ge0_split(p - tlo, 2, 2) and facts.entails_ge0_split(thi - p, 2, 2):
                 fits = True
             if fits:
                 r = IntV(bits, signed, p=p)
@@ -1318,6 +1319,9 @@ class Executor:
         return "%s@bb%d/%s" % (fr.fn_id, header, fr.fid)
 
     def loop_continue(self, st, fr, header):
+        if self.unroll is not None and self.unroll[0] == self.loop_id(fr, header):
+            self.unroll[1].append(st)
+            return
         if self.back_states is not None and self.back_states[0] == self.loop_id(fr, header):
             self.back_states[1].append(st)
         if self.dry:
@@ -1340,6 +1344,11 @@ class Executor:
         body once from the header. -> (returns, exits)"""
         lid = self.loop_id(fr, header)
         blocks = fr.cfg.loops[header]
+        n_it = self.unroll_count(st, fr, header)
+        if n_it is not None:
+            r_ = self.try_unroll(st, fr, header, n_it)
+            if r_ is not None:
+                return r_
         written = set()
         inv = {}
         known_roots = set(self.root_types)
@@ -1403,6 +1412,85 @@ class Executor:
         rets, exits = self.run_blocks(fr, {header: [st]}, blocks, header)
         if not self.dry:
             self.loops[lid]["exits"] = sorted(exits)
+        return rets, exits
+
+    MAX_UNROLL = 64
+
+    def unroll_count(self, st, fr, header):
+        """a `for` loop over data of known length (a constant table, an array, a constant range, and zip / enumerate
+        / chunks of those): the number of items, else None. Such a loop is expanded item by item like the straight-
+        line code it abbreviates; every other loop is treated abstractly."""
+        if self.summaries is None or not hasattr(self.summaries, "concrete_len"):
+            return None
+        blk = fr.body["blocks"][header]
+        t = blk["term"]
+        if t["k"] != "call" or not t["args"]:
+            return None
+        try:
+            fn = t["func"]["ty"]["fn"]
+        except (KeyError, TypeError):
+            return None
+        if fn.get("name") != "next" or (fn.get("container") or {}).get("trait") != "core::iter::traits::iterator::Iterator":
+            return None
+        probe = st.fork()
+        saved, self.write_log = self.write_log, None
+        self.dry += 1
+        try:
+            for s_ in blk["stmts"]:
+                self.statement(probe, fr, s_)
+            a0 = self.operand(probe, fr, t["args"][0])
+            if not isinstance(a0, Ptr):
+                return None
+            itv = self.read(probe, a0.root, a0.path, a0.pty)
+            n = self.summaries.concrete_len(CallCtx(self, fr, fn, {"args": [], "kind": "x"}, [a0], None, t.get("span"), ""), probe, itv)
+        except (Undecided, KeyError, TypeError, AttributeError):
+            return None
+        finally:
+            self.dry -= 1
+            self.write_log = saved
+        if n is None or n > self.MAX_UNROLL:
+            return None
+        return n
+
+    def try_unroll(self, st, fr, header, n_it):
+        lid = self.loop_id(fr, header)
+        blocks = fr.cfg.loops[header]
+        n_term, loop_keys, n_notes = len(self.terminated), set(self.loops), len(self.notes)
+        cur = [st.fork()]
+        rets, exits = [], {}
+        ok = False
+        try:
+            for _k in range(n_it + 1):
+                saved = self.unroll
+                self.unroll = (lid, [])
+                try:
+                    r_, e_ = self.run_blocks(fr, {header: cur}, blocks, header)
+                finally:
+                    backs = self.unroll[1]
+                    self.unroll = saved
+                rets.extend(r_)
+                for nb, ss in e_.items():
+                    # what leaves the loop in different iterations are different paths of the expanded code:
+                    # they must not be merged where they happen to share the block after the loop
+                    for s_ in ss:
+                        self.counter += 1
+                        s_.lineage = s_.lineage + (self.counter,)
+                    exits.setdefault(nb, []).extend(ss)
+                if not backs:
+                    ok = True
+                    break
+                cur = backs if self.no_merge or len(backs) == 1 else self.merge_groups(backs)
+                if len(cur) > 4:
+                    break
+        except Undecided:
+            ok = False
+        if not ok:
+            del self.terminated[n_term:]
+            del self.notes[n_notes:]
+            for k_ in list(self.loops):
+                if k_ not in loop_keys:
+                    del self.loops[k_]
+            return None
         return rets, exits
 
     def struct_fields(self, v):
